@@ -273,6 +273,15 @@ __attribute__((noinline)) void run_arith(long id, const char *desc, long long sn
             if (lt != (x < y) || eq != (x == y)) mismatch("same-unit compare", x, y, (int)lt, (int)(x < y));
         }
         MixedOps<U1, U2, R, Mixed>::run(x, y, m);
+        // partners within one unit of the mapped position (where a dropped fractional origin displacement or a truncated
+        // conversion changes the answer)
+        if (Mixed && std::is_integral<R>::value) {
+            const ld pos = m.approx((ld)x);
+            if (std::fabs(pos) < std::ldexp((ld)1, std::numeric_limits<R>::digits - 12)) {
+                const long long y0 = (long long)std::floor(pos);
+                for (long long dy = -1; dy <= 2; ++dy) MixedOps<U1, U2, R, Mixed>::run(x, (R)(y0 + dy), m);
+            }
+        }
     });
     dump("parith", id, desc);
 }
@@ -294,7 +303,7 @@ VF_NOSAN std::vector<V> shift_values(u64 seed, std::false_type) {
     return v;
 }
 template <typename PU, typename R1, typename QU, typename R2>
-__attribute__((noinline)) void run_shift(long id, const char *desc, long long kn, long long kd, u64 nrandom, u64 seed) {
+__attribute__((noinline)) void run_shift(long id, const char *desc, long long kn, long long kd, long long offn, long long offd, u64 nrandom, u64 seed) {
     using C = std::common_type_t<R1, R2>;
     g_st.clear();
     vf::g_inst = id;
@@ -302,6 +311,17 @@ __attribute__((noinline)) void run_shift(long id, const char *desc, long long kn
     static std::vector<R1> xs; static std::vector<R2> ys;
     xs = shift_values<R1>(seed, std::is_floating_point<R1>{});
     ys = shift_values<R2>(seed + 7, std::is_floating_point<R2>{});
+    // values whose scaling to the (finer) common unit leaves the operand's own rep but fits the common rep
+    if (std::is_integral<R1>::value && (std::is_floating_point<C>::value || sizeof(C) > sizeof(R1))) {
+        const ld fine = (ld)(kd > kn ? kd : kn) * (ld)kd;
+        const ld t = (ld)std::numeric_limits<R1>::max() / fine;
+        for (ld f : {1.0L, 1.5L, 3.0L, 0.75L}) { ld v = std::floor(t * f); if (v >= 1 && v <= (ld)std::numeric_limits<R1>::max()) xs.push_back((R1)v); }
+    }
+    if (std::is_integral<R2>::value && (std::is_floating_point<C>::value || sizeof(C) > sizeof(R2))) {
+        const ld fine = (ld)(kd > kn ? kd : kn) * (ld)kn;
+        const ld t = (ld)std::numeric_limits<R2>::max() / fine;
+        for (ld f : {1.0L, 1.5L, 3.0L, 0.75L}) { ld v = std::floor(t * f); if (v >= 1 && v <= (ld)std::numeric_limits<R2>::max()) ys.push_back((R2)v); }
+    }
     static const R1 *px; static const R2 *py; static size_t nx, ny;
     px = xs.data(); py = ys.data(); nx = xs.size(); ny = ys.size();
     const ld k = (ld)kn / (ld)kd;
@@ -329,6 +349,26 @@ __attribute__((noinline)) void run_shift(long id, const char *desc, long long kn
             VF_PHASE(vf::PH_OPERATION) { dn = (p - d).template coerce_in<ld>(PU{}); }
             g_st.evals++; g_st.judged++;
             if (!(std::fabs(dn - (X - Y)) <= tol)) mismatch("p-d (mixed)", x, y, dn, X - Y);
+        }
+        // the same two numbers as *points* of the two units and reps: ordering and displacement by absolute position
+        {
+            const ld off = (ld)offn / (ld)offd;          // position of QU's zero on the PU scale
+            const ld Q = Y + off;                        // position of the second point on the PU scale
+            const ld bigp = std::max(big, std::max(std::fabs(off), std::fabs(Q)));
+            if (bigp * (ld)kd * (ld)(kn > kd ? kn : kd) * (ld)offd > lim || (uns && (Q < 0 || off < 0 || X < Q))) { g_st.skipped++; return; }
+            auto p2 = au::make_quantity_point<QU>(y);
+            const ld tolp = (std::is_integral<C>::value ? 0 : 16 * ulp_of<C>(bigp)) + 8 * ulp_of<ld>(bigp);
+            bool lt = false, gt = false, eq = false; ld df = 0;
+            VF_PHASE(vf::PH_OPERATION) { lt = p < p2; gt = p > p2; eq = p == p2; df = (p - p2).in(au::QuantityMaker<au::CommonUnitT<PU, QU>>{}) * 1.0L; }
+            g_st.evals += 4;
+            if (std::fabs(X - Q) > 4 * tolp + (std::is_integral<C>::value ? 0 : 1e-12L * bigp)) {
+                g_st.judged += 3;
+                if (lt != (X < Q) || gt != (X > Q) || eq) mismatch("point compare (mixed reps)", x, y, (int)lt, (int)(X < Q));
+            } else if (std::is_integral<C>::value && offd == 1 && kd == 1) {
+                g_st.judged++;
+                if (eq != (X == Q)) mismatch("point == (mixed reps)", x, y, (int)eq, (int)(X == Q));
+            }
+            (void)df;
         }
     });
     dump("parith", id, desc);
